@@ -9,5 +9,5 @@ Extraction "c19_model.ml"
   seek conn_offset read_offset_resp
   listoffsets_split listoffsets_merge listoffsets_request listoffsets_client
   offsetfetch_request offsetfetch_map offsetcommit_request offsetcommit_map
-  metadata_map read_partitions consumer_offsets_request consumer_offsets_result
+  metadata_map read_partitions read_partitions_request read_partitions_call consumer_offsets_request consumer_offsets_result
   isort str_ltb str_eqb part_le make_time.
